@@ -2,9 +2,9 @@
 # usage: tools/confirm_seed.sh <ID> <module> <demo-dest-relative-path> <demo run cmd (run inside modules/<module>)>
 # Confirms a seeded change in its scratch worktree /tmp/wt/<ID>: patch applies and builds, existing tests of the
 # module and its e2e package pass with it, the demonstration fails with it and passes without it.
-# Writes /tmp/seedout/<ID>/confirm.log and prints a one-line verdict.
+# (SEEDOUT overrides /tmp/seedout.) Writes /tmp/seedout/<ID>/confirm.log and prints a one-line verdict.
 id=$1; mod=$2; dest=$3; shift 3; democmd="$*"
-wt=/tmp/wt/$id; out=/tmp/seedout/$id; log=$out/confirm.log
+wt=${WT:-/tmp/wt}/$id; out=${SEEDOUT:-/tmp/seedout}/$id; log=$out/confirm.log
 export GOFLAGS=-mod=mod GOPROXY=off GOSUMDB=off GOTOOLCHAIN=local
 : > $log
 cd $wt || exit 3
